@@ -64,6 +64,10 @@ Q_FOR_EACH = ('for-loop-to-for-each', 'quiet', [(TR, '''        for item in g_ba
         }''', '''        g_base_compressed
             .iter()
             .try_for_each(|item| transcript.validate_and_append_point(b"G", item))?;''')], None)
+Q_STD_LE_BYTES = ('std-to_le_bytes-instead-of-byteorder', 'quiet', [(BG, '            LittleEndian::write_u32(&mut label[1..5], party_index);', '            label[1..].copy_from_slice(&party_index.to_le_bytes());')], None)
+Q_COMPOUND_ASSIGN = ('compound-assignment-in-doubling-loop', 'quiet', [(RP, '''                d_sum = d_sum + d_sum * d_sum_temp_z;
+                d_sum_temp_z = d_sum_temp_z * d_sum_temp_z;''', '''                d_sum += d_sum * d_sum_temp_z;
+                d_sum_temp_z *= d_sum_temp_z;''')], None)
 Q_ZEROIZING_PUBLIC = ('wrap-public-vector-in-zeroizing', 'quiet', [(RP, 'let mut y_powers = Vec::with_capacity(y_powers_len);', 'let mut y_powers = Zeroizing::new(Vec::with_capacity(y_powers_len));')], None)
 
 CORPUS = {
@@ -72,7 +76,10 @@ CORPUS = {
         ('padding-from-first-statement', 'fire', [(RP, '''            max_statement.generators.max_aggregation_factor(),
         )?;''', '''            first_statement.generators.max_aggregation_factor(),
         )?;''')], 'R-C01-2'),
-        Q_RENAME_WEIGHT, Q_ERRMSG,
+        ('doubling-recurrence-compound-assign-linear', 'fire', [(RP, '''                d_sum = d_sum + d_sum * d_sum_temp_z;
+                d_sum_temp_z = d_sum_temp_z * d_sum_temp_z;''', '''                d_sum += d_sum * d_sum_temp_z;
+                d_sum_temp_z *= z_square;''')], 'R-C01-1'),
+        Q_RENAME_WEIGHT, Q_ERRMSG, Q_COMPOUND_ASSIGN,
     ],
     'C02': [
         ('early-accept-zero-rounds', 'fire', [(RP, '            // Check for an overflow from the number of rounds', '            if rounds == 0 && statements.len() == 1 { return Ok(masks); }\n            // Check for an overflow from the number of rounds')], 'R-C02-1'),
@@ -159,7 +166,10 @@ CORPUS = {
         ('label-from-capacity', 'fire', [(BG, '            LittleEndian::write_u32(&mut label[1..5], party_index);', '            LittleEndian::write_u32(&mut label[1..5], party_capacity as u32);')], 'R-C11-1'),
         ('blinding-label-collapsed', 'fire', [('src/ristretto.rs', 'let label = "RISTRETTO_MASKING_BASEPOINT_".to_owned() + &i.to_string();', 'let label = "RISTRETTO_MASKING_BASEPOINT_".to_owned() + &(i / 7).to_string();')], 'R-C11-4'),
         ('chains-into-wrong-vector', 'fire', [(BG, '            g.extend(&mut GeneratorsChain::<P>::new(&label).take(gens_capacity));', '            h.extend(&mut GeneratorsChain::<P>::new(&label).take(gens_capacity));')], 'R-C11-1'),
-        Q_ERRMSG,
+        ('big-endian-party-index', 'fire', [(BG, '            LittleEndian::write_u32(&mut label[1..5], party_index);', '            label[1..].copy_from_slice(&party_index.to_be_bytes());')], 'R-C11-1'),
+        ('label-buffer-hoisted-out-of-loop', 'fire', [(BG, '''            let mut label = [b'G', 0, 0, 0, 0];
+''', ''), (BG, '        for (i, (g, h)) in g_vec.iter_mut().zip(h_vec.iter_mut()).enumerate() {', "        let mut label = [b'G', 0, 0, 0, 0];\n        for (i, (g, h)) in g_vec.iter_mut().zip(h_vec.iter_mut()).enumerate() {")], 'R-C11-1'),
+        Q_ERRMSG, Q_STD_LE_BYTES,
     ],
     'C12': [
         ('label-from-capacity', 'fire', [(BG, '            LittleEndian::write_u32(&mut label[1..5], party_index);', '            LittleEndian::write_u32(&mut label[1..5], party_capacity as u32);')], 'R-C12-1'),
@@ -169,7 +179,7 @@ CORPUS = {
         Q_ERRMSG, Q_RENAME_WEIGHT,
     ],
     'C13': [
-        ('dR-uses-dL-label', 'fire', [(RP, '.map(|k| nonce(&seed_nonce, "dR", Some(round), Some(k)))', '.map(|k| nonce(&seed_nonce, "dL", Some(round), Some(k)))')], 'R-C13-1'),
+        ('dR-uses-dL-label', 'fire', [(RP, 'd_r.push(nonce(&seed_nonce, "dR", Some(round), Some(k))?);', 'd_r.push(nonce(&seed_nonce, "dL", Some(round), Some(k))?);')], 'R-C13-1'),
         ('s-equals-r', 'fire', [(RP, 'let s = Zeroizing::new(Scalar::random_not_zero(range_proof_transcript.as_mut_rng()));', 'let s = Zeroizing::new(*r);')], 'R-C13-2'),
         ('dR-clones-dL-without-seed', 'fire', [(RP, '            let d_r = if let Some(seed_nonce) = statement.seed_nonce {', '            let d_r = if statement.seed_nonce.is_none() { Zeroizing::new(d_l.to_vec()) } else if let Some(seed_nonce) = statement.seed_nonce {')], 'R-C13-1'),
         ('no-rejection-sampling', 'fire', [('src/protocols/scalar_protocol.rs', '''        while value == Scalar::ZERO {
@@ -214,10 +224,11 @@ CORPUS = {
     ],
     'C17': [
         ('bit-length-128-allowed', 'fire', [('src/range_parameters.rs', '        if bit_length > MAX_RANGE_PROOF_BIT_LENGTH {', '        if bit_length > 2 * MAX_RANGE_PROOF_BIT_LENGTH {')], 'R-C17-1'),
+        ('usize-degree-truncated', 'fire', [('src/generators/pedersen_gens.rs', '''            u8::try_from(value).map_err(|_| ProofError::InvalidArgument("Extension degree not valid".to_string()))?,''', '''            value as u8,''')], 'R-C17-1'),
         ('seed-with-two-commitments', 'fire', [('src/range_statement.rs', '        if seed_nonce.is_some() && commitments.len() > 1 {', '        if seed_nonce.is_some() && commitments.len() > 2 {')], 'R-C17-1'),
         ('degree-seven', 'fire', [('src/generators/pedersen_gens.rs', '            6 => Ok(ExtensionDegree::AddFiveBasePoints),', '            6 | 7 => Ok(ExtensionDegree::AddFiveBasePoints),')], 'R-C17'),
         ('mask-length-lower-bound-only', 'fire', [('src/extended_mask.rs', 'if blindings.is_empty() || blindings.len() != extension_degree as usize {', 'if blindings.is_empty() || blindings.len() > extension_degree as usize {')], 'R-C17-1'),
-        Q_ERRMSG,
+        Q_ERRMSG, Q_STD_LE_BYTES,
     ],
     'C18': [
         ('verifier-draws-from-os-rng', 'fire', [(RP, 'let mut weight_transcript_rng = weight_transcript.build_rng().finalize(&mut NullRng);', 'let mut weight_transcript_rng = weight_transcript.build_rng().finalize(&mut rand_core::OsRng);')], 'R-C18-3'),
@@ -233,7 +244,7 @@ CORPUS = {
         ('encoder-swaps-r1-s1', 'fire', [(RP, '''        buf.extend_from_slice(self.r1.as_bytes());
         buf.extend_from_slice(self.s1.as_bytes());''', '''        buf.extend_from_slice(self.s1.as_bytes());
         buf.extend_from_slice(self.r1.as_bytes());''')], 'R-C'),
-        Q_EXTRACT_PROMISE_LOOP, Q_ERRMSG,
+        Q_EXTRACT_PROMISE_LOOP, Q_ERRMSG, Q_STD_LE_BYTES,
     ],
     'C20': [
         ('seed-copy-in-temporary-vec', 'fire', [(GEN, 'key.extend_from_slice(seed_nonce.as_bytes()); // Fixed length encoding', 'key.append(&mut seed_nonce.to_bytes().to_vec()); // Fixed length encoding')], 'R-C20-2'),
@@ -250,6 +261,16 @@ CORPUS = {
         ('mask-not-zeroize-on-drop', 'fire', [('src/extended_mask.rs', '#[derive(Debug, PartialEq, Zeroize, ZeroizeOnDrop)]', '#[derive(Debug, PartialEq, Zeroize)]')], 'R-C20-1'),
         ('plain-witness-bytes', 'fire', [(TR, 'let mut witness_bytes = Zeroizing::new(Vec::<u8>::with_capacity(size));', 'let mut witness_bytes = Vec::<u8>::with_capacity(size);'),
                                          (TR, '            Some(witness_bytes)', '            Some(Zeroizing::new(witness_bytes.clone()))')], 'R-C20-2'),
+        ('fallible-collect-of-nonces', 'fire', [(RP, '''            let mut d = Zeroizing::new(Vec::with_capacity(extension_degree));
+            for k in 0..extension_degree {
+                d.push(nonce(&seed_nonce, "d", None, Some(k))?);
+            }
+            d''', '''            Zeroizing::new(
+                (0..extension_degree)
+                    .map(|k| nonce(&seed_nonce, "d", None, Some(k)))
+                    .collect::<Result<Vec<_>, ProofError>>()?,
+            )''')], 'R-C20-3'),
+        ('mask-vector-not-presized', 'fire', [(RP, 'let mut temp_masks = Vec::with_capacity(extension_degree);', 'let mut temp_masks = Vec::new();')], 'R-C20-3'),
         Q_ZEROIZING_PUBLIC, Q_ERRMSG,
     ],
 }
